@@ -1,10 +1,17 @@
 import TeleportModel.Model.Determinism
 import TeleportModel.Driver.Loop
-/- Line protocol of C14 (see harness/c14_test.go).
-   site <kind> <file> <func> <exprhash> <discharge>   -> discharged | uninventoried   (discharge must name a known class / theorem)
-   pair <shard> <n> <scriptdigest> , script <n> <line…>  -> ok
-   obs <pair> <idx> <digestA> <digestB>                  -> same <digest> | diverged
-   end <pair> <linesA> <linesB>                          -> end <linesA> <linesB>
+/- Line protocol of C14 (see harness/c14_test.go, harness/c14_probe_test.go).
+   site <kind> <file> <func> <exprhash> <discharge> [reach]  -> discharged | uninventoried
+   pair <shard> <n> <scriptdigest> , script <n> <line…>      -> ok
+   obs <pair> <idx> <digestA> <digestB>                      -> same <digest> | diverged
+   end <pair> <linesA> <linesB>                              -> end <linesA> <linesB>
+   loop-model probes (the real function is fed the same entries, R repetitions, R is ignored here):
+   bscp <R> <epoch> <N> <claim 1|2> <signer> <nv> v… <nr> (seen addr)… <np> p…   -> unauthorized | recent | wrongdiff | ok vals=a,b,…
+   relp <R> <addr> <k> (chain addr)… <q> chain…             -> chains=… addrs=… auth=0101 other=x,-,…
+   adp <R> <gov|staking> <n> (namehex idhex)…               -> name=ok|wrong|none …  | panic
+   gdup agg <n> (erc20hex denomhex)… | gdup rv <n> denomhex…  -> ok | err
+   tev <R> <n> keyhex…                                       -> keys in emitted order
+   etime <blockTime> <parentTime> <headerTime>               -> ok | future | old
    The replay part is thin by design: the model re-decides agreement of the two recorded streams. -/
 namespace TM.Driver.C14
 open TM TM.Determinism
@@ -13,9 +20,123 @@ abbrev St := Replay
 
 def fresh : St := {}
 
+def natOfBytes (b : Bytes) : Nat := b.foldl (fun acc x => acc * 256 + x.toNat) 0
+
+def hexNat? (s : String) : Option Nat := (unhex s).map natOfBytes
+
+/-- byte strings (no NUL, ≤ 32 bytes) as numbers that order like `bytes.Compare` -/
+def keyNat (b : Bytes) : Nat := natOfBytes (b ++ List.replicate (32 - b.length) 0)
+
+def takeN : Nat → List String → Option (List String × List String)
+  | 0, rest => some ([], rest)
+  | _+1, [] => none
+  | n+1, x :: rest => (takeN n rest).map (fun p => (x :: p.1, p.2))
+
+def counted (l : List String) (width : Nat) : Option (List String × List String) :=
+  match l with
+  | k :: rest => k.toNat?.bind (fun n => takeN (n * width) rest)
+  | [] => none
+
+def pairsOf : List String → List (String × String)
+  | a :: b :: rest => (a, b) :: pairsOf rest
+  | _ => []
+
+def allSome {α : Type} : List (Option α) → Option (List α)
+  | [] => some []
+  | none :: _ => none
+  | some a :: rest => (allSome rest).map (a :: ·)
+
+def govKnown : List String := ["Voted", "VotedWeighted"]
+def stakingKnown : List String := ["Delegated", "Undelegated", "Redelegated", "Withdrew"]
+
+def bscp (args : List String) : String :=
+  match args with
+  | e :: n :: claim :: signer :: rest =>
+    match e.toNat?, n.toNat?, hexNat? signer, counted rest 1 with
+    | some epoch, some n, some sg, some (vals, rest1) =>
+      match counted rest1 2 with
+      | some (recs, rest2) =>
+        match counted rest2 1 with
+        | some (pend, _) =>
+          match allSome (vals.map hexNat?), allSome ((pairsOf recs).map (fun p => (p.1.toNat?).bind (fun h => (hexNat? p.2).map (fun a => (h, a))))) with
+          | some vs, some rs =>
+            if epoch = 0 then "bad-op" else
+            match bscVerdict vs rs (n + 1) sg (claim == "2") with
+            | .unauthorized => "unauthorized"
+            | .recent => "recent"
+            | .wrongDifficulty => "wrongdiff"
+            | .ok => "ok vals=" ++ joinWith "," (bscStoredVals vals pend epoch (n + 1))
+          | _, _ => "bad-op"
+        | none => "bad-op"
+      | none => "bad-op"
+    | _, _, _, _ => "bad-op"
+  | _ => "bad-op"
+
+def relp (args : List String) : String :=
+  match args with
+  | _addr :: rest =>
+    match counted rest 2 with
+    | some (ents, rest1) =>
+      match counted rest1 1 with
+      | some (qs, _) =>
+        let ps := pairsOf ents
+        let chains := ps.map Prod.fst
+        let addrs := ps.map Prod.snd
+        "chains=" ++ joinWith "," chains ++ " addrs=" ++ joinWith "," addrs ++
+        " auth=" ++ String.join (qs.map (fun q => if relayerAuth chains q then "1" else "0")) ++
+        " other=" ++ joinWith "," (qs.map (fun q => (relayerAddr chains addrs q).getD "-"))
+      | none => "bad-op"
+    | none => "bad-op"
+  | [] => "bad-op"
+
+def adp (args : List String) : String :=
+  match args with
+  | which :: rest =>
+    match counted rest 2 with
+    | some (ents, _) =>
+      let known := if which == "gov" then govKnown else stakingKnown
+      -- names are numbered by their position in the list of names of the op line
+      let ps := pairsOf ents
+      let names := ps.map (fun p => ((unhex p.1).map bytesToString).getD "?")
+      let ids := ps.map (fun p => (hexNat? p.2).getD 0)
+      let idx (nm : String) : Nat := names.idxOf nm
+      let knownFn (i : Nat) : Option Nat := if known.contains (names.getD i "?") then some i else none
+      let events := (List.range names.length).map (fun i => (i, ids.getD i 0))
+      match hookTable knownFn events with
+      | none => "panic"
+      | some tbl =>
+        joinWith " " ((List.range names.length).map (fun i =>
+          names.getD i "?" ++ "=" ++ (match tbl (ids.getD i 0) with
+            | none => "none"
+            | some h => if h = idx (names.getD i "?") then "ok" else "wrong")))
+    | none => "bad-op"
+  | [] => "bad-op"
+
+def gdup (args : List String) : String :=
+  match args with
+  | "agg" :: rest =>
+    match counted rest 2 with
+    | some (ents, _) =>
+      let ps := pairsOf ents
+      if aggGenesisDup (ps.map (fun p => ((unhex p.1).map keyNat).getD 0)) (ps.map (fun p => ((unhex p.2).map keyNat).getD 0)) then "err" else "ok"
+    | none => "bad-op"
+  | "rv" :: rest =>
+    match counted rest 1 with
+    | some (ds, _) => if rewardInvalid (ds.map (fun d => ((unhex d).map keyNat).getD 0)) then "err" else "ok"
+    | none => "bad-op"
+  | _ => "bad-op"
+
+def tev (args : List String) : String :=
+  match counted args 1 with
+  | some (keys, _) =>
+    let attrs := (List.range keys.length).map (fun i => ({ key := ((unhex (keys.getD i "-")).map keyNat).getD 0, val := i } : Attr))
+    joinWith "," ((sortAttrs attrs).map (fun a => ((unhex (keys.getD a.val "-")).map bytesToString).getD "?"))
+  | none => "bad-op"
+
 def step (st : St) (line : String) : St × String :=
   match fields line with
   | ["site", _, _, _, _, d] => (st, if dischargeOk d then "discharged" else "uninventoried")
+  | ["site", _, _, _, _, d, _] => (st, if dischargeOk d then "discharged" else "uninventoried")
   | "pair" :: _ => (fresh, "ok")
   | "script" :: _ => (st, "ok")
   | ["obs", _, _, a, b] => stepOp st (.obs a b)
@@ -23,6 +144,15 @@ def step (st : St) (line : String) : St × String :=
     match na.toNat?, nb.toNat? with
     | some x, some y => stepOp st (.fin x y)
     | _, _ => (st, "bad-op")
+  | "bscp" :: _ :: args => (st, bscp args)
+  | "relp" :: _ :: args => (st, relp args)
+  | "adp" :: _ :: args => (st, adp args)
+  | "gdup" :: args => (st, gdup args)
+  | "tev" :: _ :: args => (st, tev args)
+  | ["etime", bt, pt, ht] =>
+    match bt.toNat?, pt.toNat?, ht.toNat? with
+    | some b, some p, some h => (st, ethTimeVerdict b p h)
+    | _, _, _ => (st, "bad-op")
   | _ => (st, "bad-op")
 
 def main : IO Unit := TM.Driver.runStdin step fresh
